@@ -1228,6 +1228,9 @@ class Parser(object):
             else:
                 node = self.asttypes.ExprStatement(expr=node)
                 node.setpos(p, key)
+            # of the two ';' in this production, the one that ends this
+            # clause is the token right after it
+            node._token_map[';'] = [node.findpos(p, key + 1)]
             return node
 
         if len(p) == 10:
